@@ -42,16 +42,30 @@ func c03new(name string) *c03side {
 // promotion (Len ranges and promotes the dirty map) or a miss (Has of an absent value).
 func (s *c03side) history(name string, u []int, k int) {
 	if s.conc && len(u) >= 2 {
+		// the dirty map is promoted either by a Range (Len) or by a Load miss (Has of a dirty-only key)
+		promote := func() {
+			if vChoose(name+".promoteBy", 2) == 0 {
+				s.set.Len()
+			} else {
+				s.set.Has(u[0])
+			}
+		}
 		// canned prefixes that put the concurrent map into its rarer internal layouts
-		switch vChoose(name+".layout", 3) {
+		switch vChoose(name+".layout", 4) {
+		case 3: // u0 in the read-only map, u1 only in the dirty map
+			s.set.Add(u[0])
+			promote()
+			s.set.Add(u[1])
+			s.model[u[0]], s.model[u[1]] = true, true
+			vCover("layout: members split between read and dirty map")
 		case 1: // u0 deleted while in the read-only map (entry.p == nil)
 			s.set.Add(u[0])
-			s.set.Len()
+			promote()
 			s.set.Remove(u[0])
 			vCover("layout: deleted entry in the read map")
 		case 2: // u0 expunged: deleted, then the dirty map re-created by a new key
 			s.set.Add(u[0])
-			s.set.Len()
+			promote()
 			s.set.Remove(u[0])
 			s.set.Add(u[1])
 			s.model[u[1]] = true
